@@ -247,7 +247,7 @@ func (w *dworld) terminal() {
 	s := takeSnap(w.L, len(w.locks), w.find, w.locks)
 	for i, nd := range s.nodes {
 		if nd.Holder != nil {
-			w.mon.report("residue", "holder", fmt.Sprintf("all transactions have unlocked but key %q still names T%d as holder\n%s", nd.Key, s.holder[0][i], w.context()))
+			w.mon.report("residue", "holder", fmt.Sprintf("all transactions have unlocked but key %q still names T%d as holder\n%s", nd.Key, s.holder[i], w.context()))
 		}
 	}
 	for i, wl := range s.waiting {
